@@ -19,8 +19,12 @@ EXTENDS Session, Json, SequencesExt
 CONSTANTS TraceFile, Slack
 Trace == ndJsonDeserialize(TraceFile)
 
-VARIABLES l, s, pending, lastSeq, skip
-vars == <<l, s, pending, lastSeq, skip>>
+\* prev: until when a timer message that was decided earlier may still appear.  A timer goroutine decides that its deadline has
+\* passed and sends afterwards; the decision is not an event of its own, so other events (the other timer's message, an inbound
+\* message and the replies to it, which restart the deadline) can slip in between.  A timer message is therefore also accepted
+\* up to Slack after an event before which it was due; accepting one uses the allowance up.
+VARIABLES l, s, pending, lastSeq, skip, prev
+vars == <<l, s, pending, lastSeq, skip, prev>>
 
 Rej(prop, r, what, detail) ==
   PrintT("REJECT " \o ToJson(<<prop, r.id \o "#" \o ToString(r.i), what, detail>>)) /\ FALSE
@@ -59,17 +63,21 @@ OnIn(x, pend, r) ==
      ELSE LET x1 == Recv(x0, r.a)
           IN [s |-> x1, pending |-> SubSeq(x1.sent, Len(x0.sent) + 1, Len(x1.sent)), ok |-> TRUE]
 
-OnOut(x, pend, r) ==
+OnOut(x, pend, r, pv) ==
   LET g == AsMsg(r.m)
       t == r.t
       x0 == [x EXCEPT !.now = t]
   IN IF ~x.everLogged /\ g.ty \notin {"A", "5", "3"} /\ g.ty \in AdminTypes \cup {"2"}
         THEN [s |-> x, pending |-> pend, ok |-> Rej("C07", r, "message other than Logon/Logout/Reject sent before logon", [got |-> Brief(g)])]
      ELSE IF pend # <<>> /\ MatchLoose(pend[1], g) THEN [s |-> x, pending |-> Tail(pend), ok |-> TRUE]
-     ELSE IF g.ty = "0" /\ g.trid = <<>> /\ g.dupOf = 0 /\ HeartbeatEnabled(x, t + Slack)
+     ELSE IF g.ty = "0" /\ g.trid = <<>> /\ g.dupOf = 0 /\ (HeartbeatEnabled(x, t + Slack) \/ t <= pv.hb)
         THEN [s |-> TimerHeartbeat(x, t), pending |-> pend, ok |-> TRUE]
-     ELSE IF g.ty = "1" /\ g.dupOf = 0 /\ TestReqEnabled(x, t + Slack)
+     ELSE IF g.ty = "1" /\ g.dupOf = 0 /\ (TestReqEnabled(x, t + Slack) \/ t <= pv.tr)
         THEN [s |-> TimerTestRequest(x, t), pending |-> pend, ok |-> TRUE]
+     \* StaleTimers: no property says that the timers stop while the answer to a Logout is awaited (the library does stop them;
+     \* what a session must not do then -- count as logged on again -- is C06's business and is decided on SessionTrace)
+     ELSE IF g.ty \in {"0", "1"} /\ g.dupOf = 0 /\ x.st = "WLO" /\ pend = <<>> /\ (g.ty = "1" \/ g.trid = <<>>)
+        THEN [s |-> Emit(x0, g), pending |-> pend, ok |-> TRUE]
      ELSE IF g.ty = "A" /\ x.st = "NEW" /\ x.cfg.role = "initiator"
         THEN [s |-> Run(x0), pending |-> pend, ok |-> TRUE]
      ELSE IF g.ty = "5" /\ pend = <<>> THEN [s |-> LocalLogout(x0), pending |-> pend, ok |-> TRUE]      \* the application logs out / stops
@@ -82,27 +90,33 @@ OnOut(x, pend, r) ==
            ok |-> Rej(IF g.ty = "0" THEN "C08" ELSE IF g.ty = "1" THEN "C09" ELSE "C06", r, "outbound message that neither answers the last inbound one nor is due by a timer",
                       [got |-> Brief(g), pending |-> Len(pend), st |-> x.st, lastOut |-> x.lastOut, lastIn |-> x.lastIn, at |-> t])]
 
+\* the allowances after an event at time t that found the session in state x
+Due(x, t, pv) == [hb |-> IF HeartbeatEnabled(x, t + Slack) THEN t + Slack ELSE pv.hb,
+                  tr |-> IF TestReqEnabled(x, t + Slack) THEN t + Slack ELSE pv.tr]
+
 Dummy == InitState([role |-> "acceptor", hbMin |-> 1, hbMax |-> 1, hbCfg |-> 1, encCfg |-> "0", allowed |-> {"0"}, closeMs |-> 0, startSeq |-> 0])
 
-Init == l = 1 /\ s = Dummy /\ pending = <<>> /\ lastSeq = 0 /\ skip = FALSE
+Init == l = 1 /\ s = Dummy /\ pending = <<>> /\ lastSeq = 0 /\ skip = FALSE /\ prev = [hb |-> -1, tr |-> -1]
 Next ==
   /\ l <= Len(Trace)
   /\ l' = l + 1
   /\ LET r == Trace[l]
      IN IF r.k = "einit"
         THEN /\ s' = (IF r.cfg.role = "acceptor" THEN Run(InitState(CfgOf(r.cfg))) ELSE InitState(CfgOf(r.cfg)))
-             /\ pending' = <<>> /\ lastSeq' = r.cfg.startSeq /\ skip' = FALSE
-        ELSE IF skip THEN UNCHANGED <<s, pending, lastSeq, skip>>
+             /\ pending' = <<>> /\ lastSeq' = r.cfg.startSeq /\ skip' = FALSE /\ prev' = [hb |-> -1, tr |-> -1]
+        ELSE IF skip THEN UNCHANGED <<s, pending, lastSeq, skip, prev>>
         ELSE IF r.kind = "in"
              THEN LET res == OnIn(s, pending, r)
-                  IN s' = res.s /\ pending' = res.pending /\ skip' = ~res.ok /\ UNCHANGED lastSeq
-             ELSE LET res == OnOut(s, pending, r)
+                  IN s' = res.s /\ pending' = res.pending /\ skip' = ~res.ok /\ UNCHANGED lastSeq /\ prev' = Due(s, r.t, prev)
+             ELSE LET res == OnOut(s, pending, r, prev)
                       first == r.m.dupOf = 0
                       seqOk == ~first \/ r.m.seq = lastSeq + 1
                                  \/ Rej("C05", r, "first transmissions are not numbered consecutively in the order they leave", [got |-> r.m.seq, previous |-> lastSeq])
                   IN /\ s' = res.s /\ pending' = res.pending
                      /\ skip' = ~(res.ok /\ seqOk)
                      /\ lastSeq' = IF first THEN r.m.seq ELSE lastSeq
+                     /\ prev' = (IF r.m.ty = "0" /\ r.m.trid = <<>> THEN [Due(s, r.t, prev) EXCEPT !.hb = -1]
+                                 ELSE IF r.m.ty = "1" THEN [Due(s, r.t, prev) EXCEPT !.tr = -1] ELSE Due(s, r.t, prev))
 Spec == Init /\ [][Next]_vars
 TraceAccepted == TLCGet("stats").diameter = Len(Trace) + 1
 =============================================================================
